@@ -10,15 +10,16 @@ variable {toks : List Token}
 /-- `sp` is a token consumed at or after `st` and the last one consumed before `st'` -/
 def End (st : PState toks) (sp : Span) (st' : PState toks) : Prop :=
   st.pos ≤ sp.start ∧ sp.start ≤ sp.stop ∧ sp.stop = st'.prev ∧ IsStart toks sp.start ∧
-    IsStop toks sp.stop ∧ st.prev ≤ st.pos ∧ st'.prev ≤ st'.pos
+    IsStop toks sp.stop ∧ st.prev ≤ st.pos ∧ st'.prev ≤ st'.pos ∧ st'.rem.length < st.rem.length
 
 /-- an expression was parsed between `st` and `st'` -/
 def EPost (st : PState toks) (e : Expr) (st' : PState toks) : Prop :=
   e.WF toks e.span.start e.span.stop ∧ e.span.start = st.pos ∧ e.span.stop = st'.prev ∧
-    st.pos ≤ st'.prev ∧ st.prev ≤ st.pos ∧ st'.prev ≤ st'.pos
+    st.pos ≤ st'.prev ∧ st.prev ≤ st.pos ∧ st'.prev ≤ st'.pos ∧ st'.rem.length < st.rem.length
 
 def Fwd (st st' : PState toks) : Prop :=
-  st.pos ≤ st'.pos ∧ st.prev ≤ st'.prev ∧ st.prev ≤ st.pos ∧ st'.prev ≤ st'.pos
+  st.pos ≤ st'.pos ∧ st.prev ≤ st'.prev ∧ st.prev ≤ st.pos ∧ st'.prev ≤ st'.pos ∧
+    st'.rem.length ≤ st.rem.length
 
 /-- post-condition of `maybe_parse_assert` -/
 def AssertPost (st : PState toks) : Option (Span × Assert) → PState toks → Prop
@@ -35,7 +36,9 @@ def MaybePost {α : Type} (wf : α → Nat → Nat → Prop) (L : Nat) (st : PSt
 
 /-- unfold the numeric abstractions everywhere and call `omega` -/
 macro "nums" : tactic =>
-  `(tactic| (simp only [Fwd, Same, Tok, End, EPost, EatPost, AssertPost, MaybePost, SpanOK, surround,
+  `(tactic| first
+    | omega
+    | (simp only [Fwd, Same, Tok, End, EPost, EatPost, AssertPost, MaybePost, SpanOK, surround,
     Expr.span_null, Expr.span_bool, Expr.span_selfObj, Expr.span_dollar, Expr.span_str, Expr.span_textBlock, Expr.span_number, Expr.span_paren, Expr.span_object, Expr.span_array,
     Expr.span_arrayComp, Expr.span_field, Expr.span_index, Expr.span_slice, Expr.span_superField, Expr.span_superIndex, Expr.span_call, Expr.span_ident, Expr.span_local, Expr.span_ite,
     Expr.span_binary, Expr.span_unary, Expr.span_objExt, Expr.span_func, Expr.span_assert, Expr.span_import, Expr.span_importStr, Expr.span_importBin, Expr.span_error, Expr.span_inSuper] at * <;> omega))
@@ -62,10 +65,10 @@ theorem Tok.spanOK {st st' : PState toks} {sp : Span} (h : Tok st sp st') {lo hi
   ⟨by nums, by nums, by nums, h.isStart, h.isStop⟩
 
 theorem Tok.toEnd {st st' : PState toks} {sp : Span} (h : Tok st sp st') : End st sp st' :=
-  ⟨by nums, by nums, by nums, h.isStart, h.isStop, by nums, by nums⟩
+  ⟨by nums, by nums, by nums, h.isStart, h.isStop, by nums, by nums, by nums⟩
 
 theorem End.weaken {st0 st st' : PState toks} {sp : Span} (h : End st sp st') (hf : Fwd st0 st) : End st0 sp st' :=
-  ⟨by nums, by nums, by nums, h.isStart, h.isStop, by nums, by nums⟩
+  ⟨by nums, by nums, by nums, h.isStart, h.isStop, by nums, by nums, by nums⟩
 
 theorem Tok.fwd {st st' : PState toks} {sp : Span} (h : Tok st sp st') : Fwd st st' := by nums
 theorem End.fwd {st st' : PState toks} {sp : Span} (h : End st sp st') : Fwd st st' := by nums
@@ -532,7 +535,7 @@ theorem spec_eatFirst {α : Type} (add : Bool) : ∀ (l : List (STok × α)) (st
       cases r with
       | some p =>
         dsimp only at hr ⊢
-        exact ⟨by nums, by nums, by nums, hr.isStart, hr.isStop, by nums, by nums⟩
+        exact ⟨by nums, by nums, by nums, hr.isStart, hr.isStop, by nums, by nums, by nums⟩
       | none => dsimp only at hr ⊢; nums
 
 omit hpe in
